@@ -96,7 +96,7 @@ class DashTiming:
                               now: datetime.datetime,
                               options: OptionsContainer) -> None:
         self.timeShiftBufferDepth = options.timeShiftBufferDepth
-        if not self.timeShiftBufferDepth:
+        if self.timeShiftBufferDepth is None or self.timeShiftBufferDepth <= 0:
             self.timeShiftBufferDepth = self.DEFAULT_TIMESHIFT_BUFFER_DEPTH
         one_day = datetime.timedelta(days=1)
         if options.availabilityStartTime == 'epoch':
